@@ -13,7 +13,7 @@
    calls, race detector.  Data races are outside this model. *)
 From Coq Require Import List Ascii String NArith ZArith Bool Arith.
 Import ListNotations.
-Require Import KV Parser ChkCoalesce CoalesceProofs CoalesceHeap CoalesceHeapProofs CoalesceWrites CoalesceWritesOk SliceHeap SliceHeapProofs.
+Require Import KV Parser ChkCoalesce CoalesceProofs CoalesceHeap CoalesceHeapProofs CoalesceWrites CoalesceWritesOk SliceHeap SliceHeapProofs IdCache IdCacheProofs.
 
 (* the heap model computes the functional model's event, changes no cell that existed before the call, and
    the event's own maps are cells allocated by the call (its Paths: the input messages' cells) *)
@@ -59,6 +59,29 @@ Theorem C15_table_slices_not_written : forall (h : aheap str) (table : slice) (e
   sread str h' s' = (sread str h table ++ match extra with Some e => sread str h e | None => [] end)%list.
 Proof. exact (ecs_merge_isolated str). Qed.
 
+(* the id <-> name caches ResolveIDs reads (Model/IdCache.v, run against the constructors' own caches with scripted resolvers):
+   a lookup answers with the resolver's answer for that very key - given now, or while the entry is fresh at the time it was
+   stored - or with a pinned value; it never changes what the cache holds for another key, and the user cache and the group
+   cache do not touch each other.  So resolving ids for one event cannot change the outcome for another key, cache or event
+   beyond serving it an answer the resolver itself gave within the expiration. *)
+Theorem C15_id_lookup_value : forall cl (R : nat -> str -> str) now c k, cache_ok R now c ->
+  let '(c', v, asked) := lookup cl R now c k in
+  cache_ok R now c' /\
+  (if asked then v = R now k
+   else v = [] /\ (isS k "" || isS k "unset" = true) \/
+        exists e, cfind k c = Some e /\ v = e_val e /\
+                  (e_pinned e = true \/ (v = R (e_tick e) k /\ e_tick e <= now /\ match cl with Never => True | Always => False | AfterPause => e_tick e = now end))).
+Proof. exact lookup_value. Qed.
+Theorem C15_id_lookup_other_keys : forall cl (R : nat -> str -> str) now c k k', beq k k' = false ->
+  let '(c', _, _) := lookup cl R now c k in cfind k' c' = cfind k' c.
+Proof. exact lookup_other_keys. Qed.
+Theorem C15_id_caches_separate : forall cl R s o,
+  match o with
+  | CLookup w _ _ | CHard w _ _ => match w with O => groups (fst (cstep2 cl R s o)) = groups s | _ => users (fst (cstep2 cl R s o)) = users s end
+  | CPause => users (fst (cstep2 cl R s o)) = users s /\ groups (fst (cstep2 cl R s o)) = groups s
+  end.
+Proof. exact caches_separate. Qed.
+
 (* non-vacuity: a SYSCALL + PATH + EXECVE group on a heap holding the three cached maps *)
 Example C15_example :
   let h := [[(L "syscall", L "execve"); (L "items", L "2"); (L "result", L "success"); (L "auid", L "1000")];
@@ -75,6 +98,9 @@ Proof.
   - vm_compute. split; reflexivity.
 Qed.
 
+Print Assumptions C15_id_lookup_value.
+Print Assumptions C15_id_lookup_other_keys.
+Print Assumptions C15_id_caches_separate.
 Print Assumptions C15_table_slices_not_written.
 Print Assumptions C15_write_targets_owned.
 Print Assumptions C15_heap_model_refines.
